@@ -29,6 +29,10 @@ def replay_lifecycle(rep, prop="C02"):
     rep.add_model("MC_Lifecycle", rm)
     if rm.violated:
         raise MachineryError(f"Lifecycle.tla violates {rm.violated}")
+    r4 = common.run_tlc("Lifecycle", SPEC / "MC_Lifecycle4.cfg", timeout=900, workers=8)      # all 75 DAGs on four operators (invariants only)
+    rep.add_model("MC_Lifecycle4", r4)
+    if r4.violated:
+        raise MachineryError(f"Lifecycle.tla (4 operators) violates {r4.violated}")
     r, edges = lifecycle_edges()
     if len(edges) != r.generated - 11 and len(edges) < 1000:
         raise MachineryError(f"edge dump incomplete: {len(edges)} edges, {r.generated} states generated")
